@@ -16,7 +16,7 @@ META = {
 MANIFEST_ENTRY = {
     "level_text": "Deductive proof of the risk aggregation clauses of UpdateRisk for all trees, positions, multipliers, tables and history depths, of ClosePositionsAfterDates' bookkeeping for all children, schedules and prior records, and of SelectActive; algebraic lemmas for hedging and rolling; "
     "HedgeRisks / RollPositionsAfterDates bodies are covered only by a bounded stand-in, labelled bounded.",
-    "level_note": "_get_unit_risk (try/except around pandas indexing) is an assumed callee contract; StrategyBase.close is used through its frame contract (that the position is zero afterwards is not proved); the close-date table is a name-keyed Series model (A-PANDAS: label loc, <= comparison, boolean-mask indexing); the history frame's rows are a ghost log (its pandas construction is not modelled); reach over the whole tree is by "
+    "level_note": "_get_unit_risk (try/except around pandas indexing) is an assumed callee contract; StrategyBase.close's own body is verified separately (position zero afterwards up to is_zero, fresh tree); inside the algo it is used through its call-site contract; the close-date table is a name-keyed Series model (A-PANDAS: label loc, <= comparison, boolean-mask indexing); the history frame's rows are a ghost log (its pandas construction is not modelled); reach over the whole tree is by "
     "induction on the recursive call's contract (A-IND); numpy.linalg.inv/pinv are third-party (A-EXT); floats are reals.",
     "technique": "contract-based deductive verification (pyvc VCs + z3; recursive-call contract, ghost sum loop invariant) + algebraic lemmas; bounded real-code stand-in for numpy/pandas glue",
 }
@@ -27,6 +27,7 @@ def tasks(tier, seed):
         func("bt.algos.UpdateRisk._set_risk_recursive", variant="security"), func("bt.algos.UpdateRisk._set_risk_recursive", variant="strategy"), func("bt.algos.UpdateRisk.__call__"),
         func("bt.algos.SelectActive.__call__"),
         func("bt.algos.ClosePositionsAfterDates.__call__"),
+        func("bt.core.StrategyBase.close"),
         dict(kind="custom", module="props.lemmas", fn="c20_risk_lemmas"),
         dict(kind="custom", module="props.bounded", fn="run_script", script="c20_risk", seed=seed, n=40 if tier == "quick" else 800, props=["C20"]),
     ]
